@@ -12,5 +12,6 @@ CONSTANTS
   EUSuffixed = {}
   GenClasses = {"scalar", "array", "bitfield", "nested", "anon"}
   GenPacked = FALSE
+  McSel = "full"
   CheckSim = FALSE
 CHECK_DEADLOCK FALSE
